@@ -1,8 +1,9 @@
 """Run /repo's pinned test suite (guard off) and compare with /root/.vp/BASELINE.json stable_pass."""
 import json, subprocess, sys, xml.etree.ElementTree as ET, os, tempfile
 b = json.load(open("/root/.vp/BASELINE.json"))
-os.makedirs("/verif/build", exist_ok=True)
-out = tempfile.mktemp(suffix=".xml", dir="/verif/build")
+_B = os.path.join(os.path.dirname(os.path.dirname(os.path.abspath(__file__))), "build")
+os.makedirs(_B, exist_ok=True)
+out = tempfile.mktemp(suffix=".xml", dir=_B)
 env = {k: v for k, v in os.environ.items() if k != "PYOPENAPI_GEN_VERIF"}
 extra = sys.argv[1:]
 subprocess.run(["/venv/bin/python", "-m", "pytest", "-q", "-p", "no:cacheprovider", "--timeout=900",
